@@ -85,6 +85,25 @@ def install(I):
     ext["collections"] = {"abc": None, "OrderedDict": I.builtins["dict"], "defaultdict": Builtin("defaultdict", None),
                           "deque": Builtin("collections.deque", deque)}
 
+    # ---- itertools ------------------------------------------------------------
+    def islice(ctx, it, *a):
+        """itertools.islice(seq, start, None) / islice(seq, stop): the corresponding slice of the sequence, lazily"""
+        from . import builtins_ as BB
+        if len(a) == 1:
+            start, stop = 0, a[0]
+        elif len(a) == 2:
+            start, stop = a
+        else:
+            raise Unsupported("itertools.islice with a step")
+        if not isinstance(start, int) and start is not None:
+            raise Unsupported("itertools.islice with a symbolic start")
+        if I.is_symbolic_seq(it) or not isinstance(it, ListVal):
+            seq = I.as_seq(ctx, it)
+            return BB.getslice(I, ctx, seq, ("slice", start or None, stop, None))
+        items = I.iterate(ctx, it)
+        return ListVal(items[(start or 0):stop])
+    ext["itertools"] = {"islice": Builtin("itertools.islice", islice)}
+
     # ---- abc / functools / enum -------------------------------------------
     abcmeta = cls("ABCMeta", "abc.ABCMeta", [I.builtins["type"]])
     abc_ = cls("ABC", "abc.ABC")
